@@ -251,8 +251,15 @@ pub fn run_one(seed: u64, mode: u64, l: &mut Local) {
     l.count("daemon_iterations", w.total_iterations);
     l.count("virtual_s", (made.horizon - w.trace.entries.first().map(|e| e.t).unwrap_or(made.horizon)) / 1000);
     l.count("queries_seen", scen::tx_msgs(&w.trace, 0).iter().filter(|t| t.msg.is_query()).count() as u64);
-    if w.trace.deaths().any(|d| matches!(d.ev, Ev::Death { panicked: true, .. })) {
-        l.inconclusive.push(format!("daemon died in a C19 scenario (seed {seed})"));
+    if let Some(d) = w.trace.deaths().find(|d| matches!(d.ev, Ev::Death { panicked: true, .. })) {
+        // nothing hostile happens in these histories: a daemon thread that panics here ends every search without a
+        // word - "for as long as it runs" is over, and so are the queries the statement asks for
+        let Ev::Death { msg, file, .. } = &d.ev else { unreachable!() };
+        l.act("B3");
+        l.violate(
+            Violation::new("B3", format!("B3/search-fell-silent/daemon-thread-died/{}/{}", util::strip_numbers(msg), file), format!("the daemon thread panicked {} s into the history ({msg}): its searches ask nothing any more", (d.t - w.trace.entries.first().map(|e| e.t).unwrap_or(d.t)) / 1000))
+                .with(json!({"scenario": made.desc, "api": scen::api_log(&w.trace), "seed": seed})),
+        );
         return;
     }
     l.distinct.insert(util::fnv_str(&format!("{mode}|{}", made.desc)));
